@@ -20,7 +20,11 @@ type zzFR struct {
 	last     int   // index of the record handed out last (-1 none)
 	ioErrAt  int   // Read fails with a fatal error when pos == ioErrAt (-1 never)
 	lazyAttach bool // records hang under the root only between their Read and their Release
+	contAt     int  // once, before record contAt is handed out, Read fails with a continuable error (0 = never; position+1)
+	contDone   bool
 }
+
+var zzContRead = errors.New("malformed record skipped")
 
 var zzFatal = errors.New("reader failure")
 
@@ -31,6 +35,12 @@ func (r *zzFR) Read() (*idr.Node, error) {
 	if r.pos == r.ioErrAt {
 		r.last = -1
 		return nil, zzFatal
+	}
+	if r.contAt > 0 && r.pos == r.contAt-1 && !r.contDone {
+		// a per-record read problem (e.g. a malformed row the reader skips): no node, continuable
+		r.contDone = true
+		r.last = -1
+		return nil, zzContRead
 	}
 	if r.pos >= len(r.recs) {
 		r.last = -1
@@ -56,7 +66,7 @@ func (r *zzFR) Release(n *idr.Node) {
 	zz.Fail("Release called with a node the reader never handed out")
 }
 
-func (r *zzFR) IsContinuableError(err error) bool                  { return false }
+func (r *zzFR) IsContinuableError(err error) bool                  { return err == zzContRead }
 func (r *zzFR) FmtErr(format string, args ...interface{}) error { return errors.New(format) }
 
 func zzS(s string) *string { return &s }
@@ -121,11 +131,24 @@ func C10IngesterStep() {
 	fr.released = make([]int, K)
 	if zz.NondetBool("readerFails") {
 		fr.ioErrAt = zz.NondetChoice("failAt", K+1)
+	} else if zz.NondetBool("readerSkips") {
+		fr.contAt = 1 + zz.NondetChoice("skipAt", K+1)
 	}
 	g := &ingester{finalOutputDecl: decl, customFuncs: transform.ZZFuncs, ctx: &transformctx.Ctx{}, reader: fr}
 	base := -1
-	for i := 0; i < K+2; i++ {
+	var prevOut []byte // the previous good result, kept by the caller across Reads
+	prevText := ""
+	i := 0
+	for step := 0; step < K+3; step++ {
 		raw, out, err := g.Read()
+		if prevOut != nil {
+			zz.Assert(string(prevOut) == prevText, "bytes handed out for an earlier record are not changed by later Reads")
+		}
+		if err == zzContRead {
+			zz.Cover("reader-skip")
+			zz.Assert(raw == nil && out == nil && g.IsContinuableError(err), "a continuable reader error passes through and stays continuable")
+			continue
+		}
 		if err == io.EOF {
 			zz.Cover("eof")
 			zz.Assert(fr.ioErrAt < 0 && i == K, "EOF exactly after the last record")
@@ -156,6 +179,7 @@ func C10IngesterStep() {
 			// never a success
 			zz.Cover("marshal-failed")
 			zz.Assert(raw != nil || out == nil, "marshal failure carries no bytes")
+			i++
 			continue
 		}
 		if werr != nil {
@@ -170,11 +194,15 @@ func C10IngesterStep() {
 				zz.Assert(raw.Raw() == interface{}(fr.recs[i]), "the raw record is the node just read")
 			}
 		}
+		if err == nil && out != nil {
+			prevOut, prevText = out, string(out)
+		}
 		size := zzCount(root)
 		if base < 0 {
 			base = size
 		}
 		zz.Assert(size <= base, "what stays attached under the reader's root does not grow with records")
+		i++
 	}
 	zz.Fail("no terminal result")
 }
